@@ -41,7 +41,7 @@ def check(ctx):
         "over the polyhedral model (exact comparison); the result is compared with the contract obtained by substituting the name "
         "in every constraint (meaning of assumptions, and of assumptions with guarantees, decided exactly; interface lists "
         "compared exactly). non-trivial = the source occurs in the contract; distinct by canonical input")
-    proved = ctx.prove("props/C16.v", ["proofs/PolyDomainFacts.v", "proofs/TermFacts.v", "proofs/IfaceFacts.v"])
+    proved = ctx.prove("props/C16.v", ["proofs/PolyDomainFacts.v", "proofs/TermFacts.v", "proofs/IfaceFacts.v", "proofs/TermGenRename.v", "proofs/TermGenRemove.v", "proofs/TermGenCore.v"])
     ctx.build(["model/PolyDomain.vo", "base/Farkas.vo"])
     rng = random.Random(ctx.seed + 16)
     n = (200 if ctx.quick else 4000) * (1 if proved else 3)
